@@ -383,7 +383,7 @@ class _Faults:
 
 
 def _norm_op(op):
-    """['spawn', i] | ['spawn', i, fault, cut] (fault '-', 'm', 'o') | ['release', i] | ['remove', i] | ['requeue', i]"""
+    """['spawn', i] | ['spawn', i, fault, cut] (fault '-', 'm', 'o') | ['release', i] | ['remove', i] | ['requeue', i] | ['abort', i]"""
     if op[0] == 'spawn':
         return ('spawn', op[1], op[2] if len(op) > 2 else '-', bool(op[3]) if len(op) > 3 else False)
     return (op[0], op[1], '-', False)
@@ -541,6 +541,18 @@ async def _conc_main(loop: GatedLoop, case: dict, dl: str, tmp: str):
         obs.append('done')
         model_lines.append(f'requeue {i}')
 
+    async def abort(i: int):
+        """`TransferManager.abort()` on a download that ended early and holds a path (INCOMPLETE, or queued again)"""
+        tr = transfers.get(i)
+        if (tr is None or not tasks[i].done() or not tr.local_path
+                or tr.state.VALUE not in (TransferState.INCOMPLETE, TransferState.QUEUED)):
+            obs.append('noop')
+        else:
+            await tm.abort(tr)
+            requeued.discard(i)
+            obs.append('removed')
+        model_lines.append(f'abort {i}')
+
     for raw in case['schedule']:
         kind, i, fault, cut = _norm_op(raw)
         if kind == 'spawn':
@@ -557,6 +569,11 @@ async def _conc_main(loop: GatedLoop, case: dict, dl: str, tmp: str):
         elif kind == 'requeue':
             await observe()
             await requeue(i)
+        elif kind == 'abort':
+            if not fresh_promised:          # as for `remove`: one file may be held by two downloads
+                continue
+            await observe()
+            await abort(i)
         await observe()
     # drain: let every download finish, round-robin
     for _ in range(200):
@@ -894,7 +911,8 @@ def _gen_conc_case(rng: random.Random) -> dict:
             for _ in range(rng.choice([12, 12, 12, 3, 0])):
                 sched.append(['release', j])
             steps = rng.choice([['remove', 'requeue'], ['remove', 'requeue'], ['requeue'], ['remove'],
-                                ['requeue', 'remove'], ['remove', 'requeue', 'requeue']])
+                                ['requeue', 'remove'], ['remove', 'requeue', 'requeue'], ['abort'], ['requeue', 'abort'],
+                                ['abort', 'requeue']])
             for st in steps:
                 sched.append([st, j])
             others = [i for i in range(n) if i != j]
@@ -1001,7 +1019,8 @@ class C09(Property):
             "names), start-ups interleaved by a schedule that releases executor calls one at a time; 45 % of them with "
             "OSErrors injected into the claiming step, downloads cut off, and downloads started again after their task "
             "ended; 35 % with the afterlife of a finished download (the user moves the file of a completed download away, the "
-            "download is queued again and waits while other downloads of the same name start, then it starts); equally "
+            "download is queued again and waits while other downloads of the same name start, an interrupted download is "
+            "aborted, then it starts); equally "
             "named files NEXT TO the download directory. All from VERIF_SEED. Non-trivial: chain case "
             "with a special or normalisable component / a numbered result / a raise; conc case in which at least two "
             "starts chose, resumed or failed to claim a path. Distinct = distinct canonical case")
@@ -1025,7 +1044,7 @@ class C09(Property):
                 'chain_strategies), utils.split_remote_path, SharesManager.calculate_download_path, os.path.join of the '
                 'result (final path string), the choose-and-claim step of TransferManager._prepare_download_path incl. '
                 'OSErrors (injected, ENAMETOOLONG, a non-directory in the way), which path a download holds over '
-                'complete / cut-off / started-again / file moved away / queued again without being started; exercised but not modelled: the rest of _download_file (state '
+                'complete / cut-off / started-again / file moved away / queued again without being started / aborted after its end; exercised but not modelled: the rest of _download_file (state '
                 'machine, aiofiles writes), OS file semantics')
 
     def correspondence(self, seed, tier, model_ok, widen=1):
@@ -1089,6 +1108,7 @@ class C09(Property):
                                                    and any(p[0] == 'spawn' and p[1] == o[1] for p in ops[:k])))
                 res.count('conc:file-moved-away', sum(1 for o in obs if o == 'removed'))
                 res.count('conc:requeued-not-started', sum(1 for o in ops if o[0] == 'requeue'))
+                res.count('conc:aborted-after-its-end', sum(1 for k, o in enumerate(ops) if o[0] == 'abort'))
             res.violations += vs
             if any(o.startswith('HARNESS-EXC') for o in obs):       # the case could not be driven: nothing was compared
                 res.notes.append(f'harness exception: {obs[-1]} on {c}'[:600])
